@@ -164,6 +164,52 @@ def _distinct_pairs(vals):
     return out
 
 
+def field_orders(n):
+    """Non-identity field orders: every permutation up to 3 fields; reversed + one rotation beyond."""
+    ident = tuple(range(n))
+    if n <= 3:
+        return [p for p in itertools.permutations(range(n)) if p != ident]
+    return [tuple(reversed(ident)), ident[1:] + ident[:1]]
+
+
+def _reordered(fs, decl_values, frozen):
+    hl = _hl()
+    names = [n for n, _ in fs]
+
+    def plain(v):
+        return all(v[n] is not None for n in names)
+
+    def distinct(v):
+        try:
+            return plain(v) and len({repr(v[n]) for n in names}) == len(names)
+        except Exception:  # noqa: BLE001
+            return False
+
+    picks = []
+    for pred in (distinct, plain, lambda v: not plain(v)):
+        x = next((v for v in decl_values if pred(v) and all(v is not q for q in picks)), None)
+        if x is not None:
+            picks.append(x)
+    if decl_values and all(decl_values[-1] is not q for q in picks):
+        picks.append(decl_values[-1])
+    full = []
+    for v in picks:
+        for order in field_orders(len(names)):
+            full.append(hl.Struct(**{names[i]: v[names[i]] for i in order}))
+        if not frozen:
+            full.append({n: v[n] for n in names})
+            for order in field_orders(len(names)):
+                full.append({names[i]: v[names[i]] for i in order})
+    short = []
+    if picks:
+        v = picks[0]
+        rev = list(reversed(range(len(names))))
+        short.append(hl.Struct(**{names[i]: v[names[i]] for i in rev}))
+        if not frozen:
+            short.append({names[i]: v[names[i]] for i in rev})
+    return full, short
+
+
 def values(spec, size='full', frozen=False):
     """Value domain of a type.  `frozen`: the value sits inside a set or is a dict key, so collections are
     the hashable forms hail itself returns there (frozenlist / frozenset / frozendict)."""
@@ -226,6 +272,12 @@ def values(spec, size='full', frozen=False):
             sub = 'mid' if size == 'full' else 'few'
             out += [hl.Struct(**dict(zip([n for n, _ in fs], c)))
                     for c in itertools.product(*[values(c, sub, frozen) for _, c in fs])]
+            # the same values with the fields in another order than the type declares (well-typed: tstruct accepts any
+            # Mapping with the right names): hail Structs in permuted order and, where hashing is not needed, plain dicts
+            re_full, re_short = _reordered(fs, out[1:], frozen)
+            if size == 'full':
+                return out + re_full
+            return _cut(out, size) + re_short
         return _cut(out, size) if size != 'full' else out
     if k == 'ndarray':
         import numpy as np
@@ -323,7 +375,8 @@ def veq(spec, a, b):
         if k == 'tuple':
             return isinstance(b, tuple) and len(a) == len(b) and all(veq(c, x, y) for c, x, y in zip(spec[1], a, b))
         if k == 'struct':
-            return (isinstance(b, hl.Struct) and list(b) == [n for n, _ in spec[1]] and list(a) == list(b)
+            names = [n for n, _ in spec[1]]
+            return (isinstance(b, hl.Struct) and sorted(b) == sorted(names) and sorted(a) == sorted(names)
                     and all(veq(c, a[n], b[n]) for n, c in spec[1]))
         if k == 'ndarray':
             return (isinstance(b, np.ndarray) and a.shape == b.shape and a.dtype == b.dtype
@@ -352,7 +405,7 @@ def roundtrip(spec, v):
         return 'from_json-raises', f'{type(ex).__name__}: {ex} (wire form {s[:120]})'
     if not veq(spec, v, back):
         return 'value-changed', f'wire form {s[:120]} decodes to {back!r}'
-    if not has_nan(v) and not isinstance(v, np.ndarray) and spec_has_no_ndarray(spec):
+    if not has_nan(v) and not isinstance(v, np.ndarray) and spec_has_no_ndarray(spec) and not has_dict_struct(spec, v):
         try:
             same = bool(back == v) and bool(v == back)
         except Exception as ex:  # noqa: BLE001
@@ -360,6 +413,23 @@ def roundtrip(spec, v):
         if not same:
             return 'value-compares-unequal', f'wire form {s[:120]} decodes to {back!r}, which is != the original'
     return None
+
+
+def has_dict_struct(spec, v):
+    """A struct position holds a plain dict (a Struct never compares equal to a dict with Python's ==)."""
+    if v is None:
+        return False
+    if spec[0] == 'struct' and not isinstance(v, _hl().Struct):
+        return True
+    return any(has_dict_struct(cs, cv) for cs, cv in components(spec, v))
+
+
+def fields_reordered(spec, v):
+    if v is None:
+        return False
+    if spec[0] == 'struct' and list(v) != [n for n, _ in spec[1]]:
+        return True
+    return any(fields_reordered(cs, cv) for cs, cv in components(spec, v))
 
 
 _no_nd = {}
@@ -432,6 +502,8 @@ def describe_value(spec, v):
         return 'missing-element'
     if k == 'interval' and (v.start is None or v.end is None):
         return 'missing-endpoint'
+    if k == 'struct' and list(v) != [n for n, _ in spec[1]]:
+        return 'fields-reordered' + ('-dict' if not isinstance(v, _hl().Struct) else '')
     if k in ('tuple', 'struct') and any(c[1] is None for c in components(spec, v)):
         return 'missing-field'
     if k in ('float32', 'float64'):
@@ -509,6 +581,33 @@ def enumerate_types(tier):
                 add(('struct', (('a', a), ('b', b))))
     for s in hashable_context_types(tier):
         add(s)
+    for s in wide_struct_types(tier):
+        add(s)
+    return out
+
+
+def wide_struct_types(tier):
+    """Structs with 3 and 4 fields (differing field types so a swap is visible, and equal types with different values),
+    at top level and one level inside array / set / dict value / tuple / struct."""
+    i32, i64, f64, st, bo = ('int32',), ('int64',), ('float64',), ('str',), ('bool',)
+    inner = ('struct', (('p', i32), ('q', st)))
+    structs = [
+        ('struct', (('a', i32), ('b', i32), ('c', st))),
+        ('struct', (('a', i32), ('b', i32), ('c', i32))),
+        ('struct', (('x', f64), ('n', i32), ('tag', st))),
+        ('struct', (('a', st), ('b', ('array', i32)), ('c', inner))),
+        ('struct', (('a', i32), ('b', st), ('c', f64), ('d', inner))),
+    ]
+    if tier != 'quick':
+        structs += [
+            ('struct', (('a', ('call',)), ('b', ('locus', 'GRCh37')), ('c', ('interval', i32)))),
+            ('struct', (('a', ('dict', st, f64)), ('b', ('set', i32)), ('c', ('tuple', (i32, st))))),
+            ('struct', (('a', bo), ('b', i64), ('c', ('float32',)), ('d', st))),
+            ('struct', (('a b', f64), ('', st), ('c', i32))),
+        ]
+    out = list(structs)
+    for s in structs:
+        out += [('array', s), ('set', s), ('dict', st, s), ('tuple', (i32, s)), ('struct', (('s', s), ('k', i32))), ('interval', s)]
     return out
 
 
@@ -674,6 +773,10 @@ def check(tier, seed, procs):
                       + ('depth 3: every constructor over a depth-2 type of {int32,float64,str} with the other child a leaf of the same set'
                          if tier == 'quick' else
                          'depth 3: every constructor over any depth-2 type with the other child any leaf; plus dict/struct of two depth-2 types over {float64,str,call}')),
+            'struct_field_order': 'every struct with >= 2 fields also gets its values as hail Structs in every other field order (all permutations up '
+                                  'to 3 fields, reversed + one rotation for 4) and as plain dicts (declaration order and permuted), at top level; nested '
+                                  'positions carry one reversed Struct and one reversed dict; 3- and 4-field structs with differing and with equal field '
+                                  'types are added at top level and one level inside array/set/dict value/tuple/struct/interval',
             'values': 'per-type domains listed in the module docstring; inside a container children use the 3-5 first values of their domain '
                       '(always including missing); 2-element collections use all ordered/unordered pairs of the first 3',
         },
@@ -683,7 +786,7 @@ def check(tier, seed, procs):
         'value_features': dict(sorted(feats.items())),
         'violation_classes': {sig: v[0] for sig, v in sorted(merged.items())},
     }
-    need = ['missing', 'missing-value', 'missing-element', 'missing-endpoint', 'missing-field', 'nan', 'inf', 'contains-nan',
+    need = ['fields-reordered', 'fields-reordered-dict', 'missing', 'missing-value', 'missing-element', 'missing-endpoint', 'missing-field', 'nan', 'inf', 'contains-nan',
             'ploidy0-phased', 'ploidy1-phased', 'ploidy2-unphased']
     lacking = [f for f in need if not feats.get(f)]
     return {
